@@ -169,7 +169,15 @@ def write_bytes(obj, mode):
 
 
 def read_back(data, mode, use):
-    """open the bytes the way `mode` says and apply `use` to the object while the file is open"""
+    """open the bytes the way `mode` says and apply `use` to the object while the file is open; a file that was written but cannot
+    be read back is a violation, not a harness problem"""
+    try:
+        return _read_back(data, mode, use)
+    except Exception as e:
+        raise _ReadFailed("%s: %s" % (type(e).__name__, str(e)[:160]))
+
+
+def _read_back(data, mode, use):
     if mode["buffer"]:
         with asdf.open(io.BytesIO(data), lazy_load=mode["lazy_load"], memmap=False) as af:
             return use(af["obj"])
@@ -430,6 +438,17 @@ def _defaults(s):
 
 
 def impl(case):
+    try:
+        return _impl(case)
+    except _ReadFailed as e:
+        return {"read_failed": str(e)}
+
+
+class _ReadFailed(Exception):
+    pass
+
+
+def _impl(case):
     mode = case["mode"]
     res = {}
     if case["what"] == "frame":
@@ -535,6 +554,8 @@ def _key(case):
 
 def oracle(case, res):
     out = []
+    if "read_failed" in res:
+        return [("read", "the %s was written but cannot be read back (%s): %s" % (case["what"], _mode_str(case["mode"]), res["read_failed"]))]
     if "refused" in res:
         return out          # refusing to write is allowed by the property
     key = _key(case)
@@ -566,6 +587,8 @@ def _mode_str(m):
 
 def request(case, res):
     reqs = []
+    if "read_failed" in res:
+        return None
     if case["what"] == "frame" and "node" in res:
         k = case["frame"]["kind"]
         reqs.append({"tag": "to_node", "op": "to_node", "frame": res["frame_json"]})
@@ -609,6 +632,8 @@ def stats(case, res, st):
     st["mode_" + ("buffer" if case["mode"]["buffer"] else "file")] += 1
     st["asdf_" + case["mode"]["version"]] += 1
     st["manifest_" + case["mode"]["manifest"]] += 1
+    if "read_failed" in res:
+        st["read_failed"] += 1
     if "refused" in res:
         st["refused"] += 1
         st["refused:" + res["refused"][:60]] += 1
@@ -704,7 +729,7 @@ def gen_model(rng):
     if k == "regions":
         labs = rng.sample([1, 2, 3], 3)
         s["sel"] = [[lab, [float(lab), 1.0], [1.0, float(10 * lab)]] for lab in labs]
-        s["undef"] = rng.choice([float("nan"), -99.0])
+        s["undef"] = rng.choice([float("nan"), -99.0, 0.0, 0.0])      # 0 is a legitimate fill value, not "unset"
         if s["undef"] != s["undef"]:
             s["undef"] = "nan"
     if k == "sellmeier_glass":
